@@ -1,5 +1,6 @@
 import SqlVerif.Lemmas.PrattFuel
 import SqlVerif.Lemmas.QueryFuel
+import SqlVerif.Lemmas.DmlFuel
 /-!
 # C02, parser half — the modelled parser terminates, does linear work, and only returns values
 
@@ -67,6 +68,15 @@ are instances), every recursion limit and every token list:
      outside the fragment (`unsupported` at PIVOT/UNPIVOT).
    * `prev_token: assert!(index > 0)` is the cursor layer (C08/C14 theorems), not this file.
    Every other parser function (≈ 300) is unmodelled: search only (oracle C02).
+5. **The statement model** (`Model/Dml.lean`: `parse_statement` for queries / `VALUES` / `INSERT` /
+   `UPDATE` / `DELETE` / `CREATE TABLE` / `DROP TABLE`, column types through `Model/DataType.lean`;
+   stream `dml`): the same `need n = 2 * n + 5` suffices (`dml_never_out_of_fuel`,
+   `dml_script_never_out_of_fuel`; per function `2 n + 2 … 2 n + 5`, the data-type parser on the
+   fragment's non-recursive types `n + 2`: `dml_column_type_never_out_of_fuel`), runs are
+   fuel-irrelevant (`dml_fuel_irrelevant`, `_of_need`, `_script`, `_script_of_need`) and value-only
+   (`dml_no_panic`).  The loops of `parse_columns` / `parse_column_def` (own counters in the model)
+   are covered: every round consumes a token (`Lemmas/DmlFuel.lean`: `columnDef_lt`,
+   `colOption_opt_lt`).
 -/
 namespace SqlVerif.Props.C02Parser
 open SqlVerif.Pratt SqlVerif.Query SqlVerif.Gen
@@ -252,6 +262,89 @@ theorem quant_keyword_guarded (c : Cfg) (d q : Nat) (ts : List Tok) (o : BinOp) 
        repeat' split at h
        all_goals (simp at h))
 
+-- ------------------------------------------------------------------ 5. the statement model
+open SqlVerif.Dml (DCfg Stmt parseStmt) in
+/-- **the statement parser never stalls**: `need` fuel (the bound of the query layer) suffices for
+INSERT / UPDATE / DELETE / CREATE TABLE / DROP TABLE too -/
+theorem dml_never_out_of_fuel (c : DCfg) (fuel limit : Nat) (ts : List Tok) (h : need ts.length limit ≤ fuel) :
+    parseStmt c fuel limit ts ≠ .error .fuel :=
+  SqlVerif.Dml.parseStmt_nofuel c limit ts (by unfold need at h; omega)
+
+open SqlVerif.Dml (DCfg) in
+/-- scripts of the statement model: the loop never exhausts its counter (any statement fuel), and with
+enough statement fuel no statement of the script reports `fuel` -/
+theorem dml_script_never_out_of_fuel (c : DCfg) (fuel limit : Nat) (ts : List Tok) :
+    SqlVerif.Dml.parseScript c fuel limit ts ≠ .error .fuel ∧
+    (need ts.length limit ≤ fuel → SqlVerif.Dml.parseScript c fuel limit ts ≠ .error (.stmt .fuel)) :=
+  ⟨SqlVerif.Dml.parseScript_loop_nofuel c fuel limit ts,
+   fun h => SqlVerif.Dml.parseScript_nofuel c limit ts (by unfold need at h; omega)⟩
+
+open SqlVerif.Dml (DCfg) in
+/-- the statement kinds with their own thresholds (`ts` = the tokens after the statement keyword) -/
+theorem dml_never_out_of_fuel_all (c : DCfg) (fuel d : Nat) (kw : Tok) (ts : List Tok) :
+    (2 * ts.length + 5 ≤ fuel → SqlVerif.Dml.parseInsert c fuel d kw ts ≠ .error .fuel) ∧
+    (2 * ts.length + 4 ≤ fuel → SqlVerif.Dml.parseUpdate c fuel d kw ts ≠ .error .fuel) ∧
+    (2 * ts.length + 4 ≤ fuel → SqlVerif.Dml.parseDelete c fuel d kw ts ≠ .error .fuel) ∧
+    (2 * ts.length + 2 ≤ fuel → SqlVerif.Dml.parseCreate c fuel d kw ts ≠ .error .fuel) ∧
+    (2 * ts.length + 2 ≤ fuel → SqlVerif.Dml.parseDrop c fuel kw ts ≠ .error .fuel) ∧
+    (2 * ts.length + 2 ≤ fuel → SqlVerif.Dml.valuesQuery c fuel d kw ts ≠ .error .fuel) :=
+  ⟨SqlVerif.Dml.parseInsert_nofuel c d kw ts, SqlVerif.Dml.parseUpdate_nofuel c d kw ts,
+   SqlVerif.Dml.parseDelete_nofuel c d kw ts, SqlVerif.Dml.parseCreate_nofuel c d kw ts,
+   SqlVerif.Dml.parseDrop_nofuel c kw ts, SqlVerif.Dml.valuesQuery_nofuel c d kw ts⟩
+
+open SqlVerif.Dml (DCfg) in
+/-- column types: the data-type parser (own `fuel` and depth guard) on the types the fragment allows
+needs `n + 2` fuel — one level for the helper, one per `[]` suffix -/
+theorem dml_column_type_never_out_of_fuel (c : DCfg) (fuel d : Nat) (ts : List Tok) (h : ts.length + 2 ≤ fuel) :
+    SqlVerif.Dml.colType c fuel d ts ≠ .error .fuel :=
+  SqlVerif.Dml.colType_nofuel c d ts h
+
+open SqlVerif.Dml (DCfg parseStmt) in
+/-- **a statement run that did not run out of fuel is the run under every larger fuel** -/
+theorem dml_fuel_irrelevant (c : DCfg) (fuel fuel' limit : Nat) (ts : List Tok) (hf : fuel ≤ fuel')
+    (h : parseStmt c fuel limit ts ≠ .error .fuel) : parseStmt c fuel' limit ts = parseStmt c fuel limit ts :=
+  (SqlVerif.Dml.parseStmt_mono c hf limit ts).eq_of_ne h
+
+open SqlVerif.Dml (DCfg parseStmt) in
+/-- all fuels `≥ need` give the same outcome -/
+theorem dml_fuel_irrelevant_of_need (c : DCfg) (f1 f2 limit : Nat) (ts : List Tok)
+    (h1 : need ts.length limit ≤ f1) (h2 : need ts.length limit ≤ f2) :
+    parseStmt c f1 limit ts = parseStmt c f2 limit ts := by
+  rw [dml_fuel_irrelevant c _ f1 limit ts h1 (dml_never_out_of_fuel c _ limit ts (Nat.le_refl _)),
+      dml_fuel_irrelevant c _ f2 limit ts h2 (dml_never_out_of_fuel c _ limit ts (Nat.le_refl _))]
+
+open SqlVerif.Dml (DCfg) in
+theorem dml_fuel_irrelevant_script (c : DCfg) (fuel fuel' limit : Nat) (ts : List Tok) (hf : fuel ≤ fuel')
+    (h : SqlVerif.Dml.parseScript c fuel limit ts ≠ .error (.stmt .fuel)) :
+    SqlVerif.Dml.parseScript c fuel' limit ts = SqlVerif.Dml.parseScript c fuel limit ts := by
+  rcases SqlVerif.Dml.parseScript_mono c hf limit ts with h1 | h1
+  · exact absurd h1 h
+  · exact h1.symm
+
+open SqlVerif.Dml (DCfg) in
+theorem dml_fuel_irrelevant_script_of_need (c : DCfg) (f1 f2 limit : Nat) (ts : List Tok)
+    (h1 : need ts.length limit ≤ f1) (h2 : need ts.length limit ≤ f2) :
+    SqlVerif.Dml.parseScript c f1 limit ts = SqlVerif.Dml.parseScript c f2 limit ts := by
+  rw [dml_fuel_irrelevant_script c _ f1 limit ts h1 ((dml_script_never_out_of_fuel c _ limit ts).2 (Nat.le_refl _)),
+      dml_fuel_irrelevant_script c _ f2 limit ts h2 ((dml_script_never_out_of_fuel c _ limit ts).2 (Nat.le_refl _))]
+
+open SqlVerif.Dml (DCfg Stmt parseStmt) in
+/-- the outcome of the statement model is a tree with a strictly shorter rest or an error value -/
+theorem dml_no_panic (c : DCfg) (fuel limit : Nat) (ts : List Tok) (h : need ts.length limit ≤ fuel) :
+    (∃ s rest, parseStmt c fuel limit ts = .ok (s, rest) ∧ rest.length < ts.length) ∨
+    parseStmt c fuel limit ts = .error .rle ∨
+    (∃ msg, parseStmt c fuel limit ts = .error (.syntax msg)) ∨
+    parseStmt c fuel limit ts = .error .unsupported := by
+  have hn := dml_never_out_of_fuel c fuel limit ts h
+  cases hr : parseStmt c fuel limit ts with
+  | ok v => obtain ⟨s, rest⟩ := v; exact Or.inl ⟨s, rest, rfl, SqlVerif.Dml.parseStmt_lt hr⟩
+  | error er =>
+    cases er with
+    | rle => exact Or.inr (Or.inl rfl)
+    | «syntax» m => exact Or.inr (Or.inr (Or.inl ⟨m, rfl⟩))
+    | unsupported => exact Or.inr (Or.inr (Or.inr rfl))
+    | fuel => exact absurd hr hn
+
 -- ------------------------------------------------------------------ non-vacuity
 section Examples
 def g : Cfg := Cfg.ofRow dialect_generic
@@ -308,6 +401,22 @@ example : parseStatement gq (need 4 1) 1 [kw "SELECT", a, kw "FROM", a] = .error
     parseStatement gq (need 1 50) 50 [kw "CREATE"] = .error .unsupported := by decide +kernel
 -- the guards are exercised: `a = ANY (a)` goes through the `quant` plan, `LIMIT 1, 2` through the comma clause
 example : isOk (parseExpr g 100 50 [a, .sym .Eq, kw "ANY", lp, a, rp]) = true := by decide +kernel
+-- 5. statements: `UPDATE t SET a = 1, b = (2) WHERE c` (14 tokens) stalls at fuel 3 and runs with `need`;
+--    `INSERT INTO t (a, b) VALUES (1, 2), (3, 4)` likewise; the outcome under `need` is the outcome under 500
+def gd : SqlVerif.Dml.DCfg := SqlVerif.Dml.DCfg.ofRow dialect_generic
+def num (s : String) : Tok := .number (str s) false
+def u1 : List Tok :=
+  [kw "UPDATE", wd "t", kw "SET", wd "a", .sym .Eq, num "1", .sym .Comma, wd "b", .sym .Eq, lp, num "2", rp, kw "WHERE", wd "c"]
+def i1 : List Tok :=
+  [kw "INSERT", kw "INTO", wd "t", lp, wd "a", .sym .Comma, wd "b", rp, kw "VALUES", lp, num "1", .sym .Comma, num "2", rp,
+   .sym .Comma, lp, num "3", .sym .Comma, num "4", rp]
+example : SqlVerif.Dml.parseStmt gd 3 50 u1 = .error .fuel ∧ isOk (SqlVerif.Dml.parseStmt gd (need u1.length 50) 50 u1) = true ∧
+    SqlVerif.Dml.parseStmt gd 1 50 i1 = .error .fuel ∧ isOk (SqlVerif.Dml.parseStmt gd (need i1.length 50) 50 i1) = true := by
+  decide +kernel
+example : SqlVerif.Dml.parseStmt gd 500 50 u1 = SqlVerif.Dml.parseStmt gd (need u1.length 50) 50 u1 :=
+  dml_fuel_irrelevant_of_need gd 500 _ 50 u1 (by decide) (Nat.le_refl _)
+example : isOk (SqlVerif.Dml.parseScript gd (need (u1 ++ [Tok.sym .SemiColon] ++ i1).length 50) 50 (u1 ++ [Tok.sym .SemiColon] ++ i1)) = true ∧
+    SqlVerif.Dml.parseScript gd 3 50 (u1 ++ [Tok.sym .SemiColon] ++ i1) = .error (.stmt .fuel) := by decide +kernel
 end Examples
 
 /-- The full property for the parser half (not proved): termination, polynomial work and absence
